@@ -4,6 +4,7 @@ import (
 	"fmt"
 	"go/token"
 	"go/types"
+	"regexp"
 	"sort"
 	"strings"
 
@@ -26,7 +27,7 @@ func runC03Gaps2(c *eng.Ctx) {
 	c03gStoreACL(c)
 	c03gCapabilities(c)
 	c03gListFilter(c)
-	c03gCloneOwnership(c)
+	c03gCloneOwnership(c, "C03.6")
 }
 
 // ---------------------------------------------------------------------------
@@ -51,6 +52,47 @@ func c03gCallCondEdges(f *ssa.Function, calleePat string, argIdx int, argPat str
 			continue
 		}
 		if ok, _ := regexpMatch(argPat, eng.ExprDeep(cl.Call.Args[argIdx])); !ok {
+			continue
+		}
+		succ := 1
+		if nc.Pol == want {
+			succ = 0
+		}
+		out = append(out, eng.Edge{From: b, Succ: succ})
+	}
+	return out
+}
+
+// c03gEntryCallEdges: the edges, of branches of f testing the result of a call
+// one of whose arguments is the value looked up in X.<field>[k], on which that
+// result is want.
+func c03gEntryCallEdges(f *ssa.Function, field string, want bool) []eng.Edge {
+	fromEntry := func(v ssa.Value) bool {
+		for _, o := range eng.Origins(v) {
+			if ex, ok := o.Val.(*ssa.Extract); ok {
+				if lk, ok := ex.Tuple.(*ssa.Lookup); ok && ex.Index == 0 && strings.HasSuffix(eng.Expr(lk.X), "."+field) {
+					return true
+				}
+			}
+		}
+		return false
+	}
+	var out []eng.Edge
+	for _, b := range f.Blocks {
+		ifi := eng.IfOf(b)
+		if ifi == nil {
+			continue
+		}
+		nc := eng.Normalize(ifi.Cond)
+		cl, ok := nc.Val.(*ssa.Call)
+		if !ok {
+			continue
+		}
+		hit := false
+		for _, a := range cl.Call.Args {
+			hit = hit || fromEntry(a)
+		}
+		if !hit {
 			continue
 		}
 		succ := 1
@@ -163,8 +205,12 @@ func c03gAllowOperation(c *eng.Ctx) {
 	// without its final '/') exists for list and scan only
 	c.Clause("R2", "C03.7")
 	var trimmed []ssa.Instruction
-	for _, cl := range eng.Calls(f, `go-radix\.Tree\)\.Get$|policy\.\(\*ACL\)\.CheckAllowedFromNonExactPaths$`) {
-		for _, o := range eng.Origins(cl.Common().Args[1]) {
+	for _, cl := range eng.Calls(f, c03RadixGet+`$|policy\.\(\*ACL\)\.CheckAllowedFromNonExactPaths$`) {
+		key := c03LastArg(cl)
+		if strings.HasSuffix(eng.CalleeName(cl.Common()), "CheckAllowedFromNonExactPaths") {
+			key = cl.Common().Args[1]
+		}
+		for _, o := range eng.Origins(key) {
 			if o.Kind == "call" && o.Desc == "strings.TrimSuffix" {
 				trimmed = append(trimmed, cl)
 				break
@@ -210,13 +256,17 @@ func c03gAllowOperation(c *eng.Ctx) {
 		`denied_parameters contains "*"`)
 	deniedKey := `^` + perm + `\.DeniedParameters\[strings\.ToLower\(\)\]#1$`
 	allowedKey := `^` + perm + `\.AllowedParameters\[strings\.ToLower\(\)\]#1$`
+	// the membership test is whichever call is handed the looked-up entry (valueInParameterList today,
+	// possibly inlined into an emptiness test plus valueInSlice): selected by its operand, not by its name
 	c03gNoAllow(c, f, "deny{denied parameter value}", eng.CondEdges(f, deniedKey, true), nil,
-		c03gCallCondEdges(f, `policy\.valueInParameterList$`, 1, `\.DeniedParameters\[`, false), map[string]bool{deniedKey: true}, allow,
-		"the parameter has a denied_parameters entry and valueInParameterList did not answer false for it")
+		c03gEntryCallEdges(f, "DeniedParameters", false), map[string]bool{deniedKey: true}, allow,
+		"the parameter has a denied_parameters entry and the membership test on that entry did not answer false")
 	for _, lk := range c03gMapLookups(f, "AllowedParameters", false) {
 		c03gNoAllow(c, f, "deny{value outside the allowed list}", nil, lk,
-			c03gCallCondEdges(f, `policy\.valueInParameterList$`, 1, `\.AllowedParameters\[`, true), map[string]bool{allowedKey: true}, allow,
-			"the parameter has an allowed_parameters entry and valueInParameterList did not answer true for it")
+			append(c03gEntryCallEdges(f, "AllowedParameters", true),
+				eng.CondEdges(f, `^len\(`+perm+`\.AllowedParameters\[strings\.ToLower\(\)\]#0\) == 0$`, true)...),
+			map[string]bool{allowedKey: true}, allow,
+			"the parameter has an allowed_parameters entry that is not empty and the membership test on that entry did not answer true")
 		c03gNoAllow(c, f, "deny{parameter not in allowed_parameters}", nil, lk,
 			eng.CondEdges(f, `^`+perm+`\.AllowedParameters\["\*"\]#1$`, true), map[string]bool{allowedKey: false}, allow,
 			`the parameter has no allowed_parameters entry and "*" is not allowed`)
@@ -390,31 +440,47 @@ func c03gExpiry(c *eng.Ctx) {
 // C03.11 merging two rules for one pattern keeps the more restrictive numeric bound
 
 func c03gMergeBounds(c *eng.Ctx) {
-	f := c.Fn("policy.NewACL")
-	if f == nil {
-		return
-	}
+	// The merge may sit in NewACL or in a helper it calls: the sites are the
+	// stores "X.F = Y.F" (same field of two permission objects, X not a literal
+	// under construction) anywhere in package policy; the guards are looked for
+	// in the function holding the store, over the same two operands.
 	c.Clause("R2", "C03.11")
-	ex := `φraw\{.*\}\.\(\*policy\.ACLPermissions\)`
-	for _, b := range []struct {
-		fld   string
-		unset eng.Guard
-	}{
-		{"MaxWrappingTTL", eng.G(f, `^`+ex+`\.MaxWrappingTTL == 0$`, true)},
-		{"PaginationLimit", eng.G(f, `^0 < `+ex+`\.PaginationLimit$`, false)},
-	} {
-		var st []ssa.Instruction
-		for _, s := range eng.Stores(f, `^`+ex+`\.`+b.fld+`$`) {
-			if strings.Contains(eng.Expr(s.Val), ".Permissions."+b.fld) {
-				st = append(st, s)
-			}
-		}
-		if !c.Floor(f, "accumulated "+b.fld+" = new rule's "+b.fld, len(st), 1) {
+	for _, fld := range []string{"MaxWrappingTTL", "PaginationLimit"} {
+		fv := c.P.Field("policy.ACLPermissions." + fld)
+		if fv == nil {
+			c.Unresolved("policy.ACLPermissions." + fld)
 			continue
 		}
-		c.Cut(f, "accumulated."+b.fld+" = new."+b.fld, st, eng.G(f, `^0 < \(?.*\.Permissions\.`+b.fld+`\)?$`, true), nil)
-		c.Cut(f, "accumulated."+b.fld+" = new."+b.fld, st, eng.Or(b.unset,
-			eng.G(f, `\.Permissions\.`+b.fld+`\)? < `+ex+`\.`+b.fld+`$`, true)), nil)
+		n := 0
+		for _, w := range c.P.FieldWriters(fv) {
+			if !eng.InPkg(w.Fn, "policy") {
+				continue
+			}
+			if _, lit := w.Addr.X.(*ssa.Alloc); lit {
+				continue
+			}
+			ld, ok := w.Store.Val.(*ssa.UnOp)
+			if !ok || ld.Op != token.MUL {
+				continue
+			}
+			src, ok := ld.X.(*ssa.FieldAddr)
+			if !ok || eng.FieldVar(src) != fv {
+				continue
+			}
+			n++
+			f := w.Fn
+			xs := regexp.QuoteMeta(strings.TrimPrefix(eng.ExprDeep(w.Store.Addr), "&"))
+			ys := regexp.QuoteMeta(eng.ExprDeep(w.Store.Val))
+			sink := []ssa.Instruction{w.Store}
+			unset := eng.GD(f, `^\(?`+xs+`\)? == 0$`, true)
+			if fld == "PaginationLimit" {
+				unset = eng.GD(f, `^0 < \(?`+xs+`\)?$`, false)
+			}
+			c.Cut(f, "accumulated."+fld+" = new."+fld, sink, eng.Guard{Desc: "[new rule's " + fld + " is set]=true", Edges: eng.GD(f, `^0 < \(?`+ys+`\)?$`, true).Edges}, nil)
+			c.Cut(f, "accumulated."+fld+" = new."+fld, sink, eng.Guard{Desc: "[accumulated " + fld + " unset]=true OR [new < accumulated]=true",
+				Edges: append(unset.Edges, eng.GD(f, `^\(?`+ys+`\)? < \(?`+xs+`\)?$`, true).Edges...)}, nil)
+		}
+		c.Floor(nil, "merge stores accumulated."+fld+" = new."+fld+" in package policy", n, 1)
 	}
 }
 
@@ -876,14 +942,15 @@ func c03gFresh(v ssa.Value, ownBase func(ssa.Value) bool) (bool, string) {
 	return walk(v)
 }
 
-func c03gCloneOwnership(c *eng.Ctx) {
+// Shared with C02 (clause C02.8): a token is judged by its own policies only.
+func c03gCloneOwnership(c *eng.Ctx, clause string) {
 	fields := c03gRefFields(c)
 	if !c.Floor(nil, "reference-typed fields of ACLPermissions", len(fields), 5) {
 		return
 	}
 	// ---- Clone: every reference-typed field of the returned value is fresh
 	if f := c.Fn("policy.(*ACLPermissions).Clone"); f != nil {
-		c.Clause("R5", "C03.6")
+		c.Clause("R5", clause)
 		n := 0
 		for _, r := range eng.SuccessReturns(f, 1) {
 			ret := r.(*ssa.Return)
@@ -916,7 +983,7 @@ func c03gCloneOwnership(c *eng.Ctx) {
 	// ---- NewACL: a slice of the policy that is stored into the accumulated
 	// entry is replaced by an owned one before the entry is (re)inserted
 	if f := c.Fn("policy.NewACL"); f != nil {
-		c.Clause("R5", "C03.6")
+		c.Clause("R5", clause)
 		acc := `^φraw\{.*\}\.\(\*policy\.ACLPermissions\)\.`
 		sinks := instrsOf(eng.Calls(f, `go-radix\.Tree\)\.Insert$`))
 		for _, in := range eng.Instrs(f, func(in ssa.Instruction) bool {
